@@ -11,7 +11,9 @@ def targeted(ctx, n):
     hs = []
     anns = [{"ssl-passthrough": "true"}, {"auth-secret": "basic"}, {"auth-secret": "missing"}, {"auth-url": "http://10.0.0.9:8000/auth"},
             {"auth-url": "svc://auth:8080/x"}, {"auth-url": "svc://nosuch:8080/x"}, {"auth-url": "http://10.0.0.8:8000/a"},
-            {"auth-url": "http://10.0.0.7:8000/a"}, {"auth-url": "svc://auth2:8080/x"}, {"oauth": "oauth2_proxy"}, {"strict-host": "true"},
+            {"auth-url": "http://10.0.0.7:8000/a"}, {"auth-url": "svc://auth2:8080/x"}, {"oauth": "oauth2_proxy"},
+            {"ssl-passthrough": "true", "ssl-passthrough-http-port": "80"}, {"ssl-passthrough": "true", "ssl-passthrough-http-port": "8080"},
+            {"ssl-passthrough": "true", "ssl-passthrough-http-port": "9999"}, {"ssl-passthrough": "true", "ssl-passthrough-http-port": "http"},
             {"auth-tls-secret": "ca"}, {"auth-tls-secret": "missing"}, {"secure-backends": "true", "secure-crt-secret": "c1"},
             {"secure-verify-ca-secret": "ca"}, {"blue-green-deploy": "group=blue=1,group=green=2"}, {"affinity": "cookie"},
             {"assign-backend-server-id": "true"}, {"backend-server-naming": "pod"}, {"backend-server-naming": "ip"},
@@ -31,6 +33,17 @@ def targeted(ctx, n):
                 st["ops"].append(U.op_eps(rng.choice(["s1", "s2"]), "e0"))
         c05.c01_fix(h)
         hs.append(h)
+    # strict-host: where the added root path points when the default host's own root is a backend, a redirect, or is missing
+    k = 0
+    for dsvc in (None, "d/s2", "d/nosuch"):
+        for root in (None, {}, {"redirect-to": "https://x.local"}, {"ssl-passthrough": "true"}):
+            for other in ("t2", "t5", "t6"):
+                ops = U.base_ops() + [U.op_sec("c2", "crt:c2"), U.op_cm({"strict-host": "true"}), U.op_ing(1, other)]
+                if root is not None:
+                    ops.append(U.op_ing(2, "t8", dict(root)))
+                steps = [dict(ops=ops), dict(ops=[U.op_ing(3, "t4")]), dict(ops=[U.op_del("ing", "d/i2")]), dict(ops=[U.op_ing(2, "t8", {"redirect-to": "https://y.local"})])]
+                hs.append(dict(id="strict-%d" % k, opt=dict(shards=0, watchwithoutclass=True, **({"defaultsvc": dsvc} if dsvc else {})), steps=steps))
+                k += 1
     # auth-proxy churn: several auth targets, the services behind them change, new targets arrive later
     urls = ["svc://auth:8080/x", "svc://auth2:8080/x", "http://10.0.0.8:8000/a", "http://10.0.0.7:8000/a", "http://10.0.0.6:8000/a"]
     for i in range(n // 3):
@@ -71,7 +84,7 @@ def run(ctx):
     out, inp = ctl.run_histories(ctx, hs, "c07", fresh=1, facts=True)
     res = ctl.judge(ctx, out, "c07")
     mine = {b["inv"] for b in res["bad"] if b["inv"].startswith("WellFormed")}
-    events = ctl.report(ctx, res, out, inp, mine, extra_sig=lambda s, e, h: s.split(":")[0] + ":" + s.split(":")[1])
+    events = ctl.report(ctx, res, out, inp, mine, extra_sig=lambda s, e, h: s.split(":")[0] + ":" + s.split(":")[1] + (":strict-host" if h["id"].startswith("strict-") and e["step"] > 0 else ""))
     states = [e for e in events if e["ev"] == "State"]
     nrefs = sum(len(e["facts"]["backendrefs"]) for e in states if e.get("facts"))
     sample = [dict(history=states[-1]["tr"], defs=states[-1]["facts"]["defs"][:12], backendrefs=states[-1]["facts"]["backendrefs"][:6])]
